@@ -75,6 +75,32 @@ let () = iter_lines (fun line ->
         Buffer.add_string buf (string_of_z (Gen_P4.coq_GetHashCodePart (zi hc) !st (z_of_string full) (z_of_string bidx) (z_of_string l) (z_of_string nl) (zi 1000) (z_of_string idx)) ^ ";"); go r
       | _ -> () in
     go ops; print_endline (Buffer.contents buf)
+  | "tbl" :: l :: nl :: hs ->
+    let tab = Array.of_list (zi 0 :: zs hs) in
+    let hash k = let i = int_of_z k in if i >= 0 && i < Array.length tab then tab.(i) else zi 0 in
+    let keys = List.init (List.length hs) (fun i -> zi (i + 1)) in
+    let lz = z_of_string l and nlz = z_of_string nl in
+    (match TableO2.insert_all hash TableO2.empty_table lz keys with
+     | Ok told ->
+       (match TableO2.migrate hash told lz nlz with
+        | Ok (_, tnew) ->
+          let buf = Buffer.create 256 in
+          let n = 1 lsl (int_of_string nl) in
+          for i = 0 to n - 1 do
+            let b = tnew (zi i) in
+            let s0 = int_of_z (b.TableO2.bst (zi 0)) and s1 = int_of_z (b.TableO2.bst (zi 1)) in
+            if s0 <> 0 || s1 <> 0 then begin
+              let c = s1 land 3 in
+              Buffer.add_string buf (Printf.sprintf "%d:%d,%d" i s0 s1);
+              for j = 0 to 2 do
+                Buffer.add_string buf ("|" ^ string_of_z (b.TableO2.bsh (zi j)));
+                if j >= 3 - c then Buffer.add_string buf ("," ^ string_of_z (b.TableO2.bhp (zi j)) ^ "," ^ string_of_z (b.TableO2.bky (zi j)))
+              done;
+              Buffer.add_string buf ";" end
+          done;
+          print_endline (Buffer.contents buf)
+        | Stuck -> print_endline "Stuck" | Fuel -> print_endline "Fuel" | Exn -> print_endline "Exn")
+     | _ -> print_endline "insert-failed")
   | ["oneadd"; st; h] ->
     (match Gen_One.coq_AddCrt (z_of_string st) (z_of_string h) with Ok (_, s) -> print_endline (string_of_z s) | _ -> print_endline "Stuck")
   | ["onerem"; st] ->
